@@ -285,11 +285,11 @@ class Xml:
         self.leaf(tag, [("type", "Integer")], str(v))
 
 
-def record_xml(x, rec, r, lex, used):
+def record_xml(x, rec, r, lex, used, local_decl=None):
     name = (rec["ns"] + ":" if rec["ns"] else "") + rec["name"]
     t = rec["type"]
     omit = lex["omit_optional"]
-    at = []
+    at = [local_decl] if local_decl else []
     if t in ("single", "double"):
         at.append(("type", "Float"))
         f = fmt_f32 if t == "single" else fmt_f64
@@ -400,9 +400,10 @@ def build_xml(scene, offsets, r, lex, hooks=None):
         dt_xml(x, "creationDateTime", scene["creation"])
     H("root:before-data3D")
     x.open("data3D", [("type", "Vector"), ("allowHeterogeneousChildren", 1)])
+    ds = hooks.get("decl_site") if hooks else None   # (site, (attr, url), prefix): local namespace declaration
     for i, pc in enumerate(scene["pointclouds"]):
         H("data3D:between")
-        x.open("vectorChild", [("type", "Structure")])
+        x.open("vectorChild", [("type", "Structure")] + ([ds[1]] if ds and ds[0] == "vectorChild" else []))
         H("pc:first")
         if pc.get("guid") is not None:
             x.string("guid", pc["guid"])
@@ -456,11 +457,11 @@ def build_xml(scene, offsets, r, lex, hooks=None):
 
         def points():
             H("pc:before-points")
-            x.open("points", [("type", "CompressedVector"), ("fileOffset", offsets[("pc", i)]), ("recordCount", pc["records"])])
-            x.open("prototype", [("type", "Structure")])
+            x.open("points", [("type", "CompressedVector"), ("fileOffset", offsets[("pc", i)]), ("recordCount", pc["records"])] + ([ds[1]] if ds and ds[0] == "points" else []))
+            x.open("prototype", [("type", "Structure")] + ([ds[1]] if ds and ds[0] == "prototype" else []))
             x.in_prototype = True
             for rec in pc["prototype"]:
-                record_xml(x, rec, r, lex, x.used)
+                record_xml(x, rec, r, lex, x.used, ds[1] if ds and ds[0] == "record" and rec["ns"] == ds[2] else None)
             x.in_prototype = False
             x.close("prototype")
             if lex.get("codecs"):
